@@ -337,6 +337,10 @@ func (C20) Gen(r *core.Rng, tier string, emit func(string)) {
 		}
 		fk := faults[r.Intn(len(faults))]
 		fi := []int{0, 0, 1, 2, 3, 4, 5, 5, 6, 7}[r.Intn(10)]
+		if i%8 == 5 {
+			// a `.sync` file whose first line announces more blocks than follow (by a few, or by 2^62): an error, not a crash
+			fk, fi = []string{"hugecount", "morecount"}[(i/8)%2], 0
+		}
 		if fk == "fewparts" && r.Chance(3, 4) {
 			fi = 4 + r.Intn(2) // the request for the tile ranges (after .sync, HEAD, first 16 KiB, metadata[, leaves])
 		}
@@ -471,6 +475,17 @@ func (o *c20Origin) ServeHTTP(w http.ResponseWriter, r *http.Request) {
 			return
 		case "norange":
 			r.Header.Del("Range")
+		case "hugecount", "morecount":
+			if strings.HasSuffix(r.URL.Path, ".sync") {
+				if m := reNumBlocks.FindSubmatchIndex(data); m != nil {
+					n, _ := strconv.Atoi(string(data[m[2]:m[3]]))
+					repl := strconv.Itoa(n + 3)
+					if o.fault == "hugecount" {
+						repl = "4611686018427387904"
+					}
+					data = append(append(append([]byte{}, data[:m[2]]...), repl...), data[m[3]:]...)
+				}
+			}
 		case "fewparts":
 			// a well-formed multipart answer that holds only the first half of the requested ranges (an origin or CDN capping ranges)
 			rs := strings.Split(strings.TrimPrefix(r.Header.Get("Range"), "bytes="), ",")
@@ -520,6 +535,7 @@ func (o *c20Origin) ServeHTTP(w http.ResponseWriter, r *http.Request) {
 	http.ServeContent(&dribbleWriter{ResponseWriter: w}, r, filepath.Base(r.URL.Path), time.Time{}, bytes.NewReader(data)) // short reads, as over a real network
 }
 
+var reNumBlocks = regexp.MustCompile(`"num_blocks":\s*(\d+)`)
 var reSyncStats = regexp.MustCompile(`matched=\S+ chunks=\S+ ?`)
 var reMatched = regexp.MustCompile(`(\d+)/(\d+) blocks matched`)
 var reChunks = regexp.MustCompile(`need (\d+) chunks`)
